@@ -55,6 +55,9 @@ def inner_shapes():
     for kw in ("anyOf", "oneOf", "allOf"):
         out.append((kw, T({kw: [{"type": "string"}, {"minimum": 1}]})))
     out.append(("not", T({"not": {"type": "string"}})))
+    # compositions whose members are all trivial: what is left to carry the default is "the trivial element"
+    out.append(("allOf[{}]", T({"allOf": [{}]})))
+    out.append(("anyOf[true]+oneOf[{}]", T({"anyOf": [True], "oneOf": [{}]})))
     out.append(("type+anyOf", T({"type": "string", "anyOf": [{"minLength": 1}, {"maxLength": 3}]})))
     out.append(("kw+not", T({"minLength": 1, "not": {"const": "q"}})))
     out.append(("anyOf+oneOf+not", T({"anyOf": [{}, {"type": "null"}], "oneOf": [{"type": "string"}, {"type": "integer"}], "not": {"const": 3}})))
@@ -89,6 +92,12 @@ def contexts():
     for comp in ("allOf", "anyOf", "oneOf"):
         C.append(("ref-shared-%s" % comp, lambda x, d2, comp=comp: _d2({"type": "object", "title": "Ctx", "properties": {"q": {"$ref": "#/definitions/s"}, "p": {comp: [{"$ref": "#/definitions/s"}], "default": x.get("default") if isinstance(x, dict) else None}, "r": {"$ref": "#/definitions/s"}}, "definitions": {"s": {"type": "string", "minLength": 1}}}, d2), lambda t: _prop(t, "p"), True))
     C.append(("shared-definition-with-default", lambda x, d2: _d2({"type": "object", "title": "Ctx", "properties": {"q": {"$ref": "#/definitions/s"}, "r": {"$ref": "#/definitions/s"}, "arr": {"type": "array", "items": {"$ref": "#/definitions/s"}}}, "definitions": {"s": x}}, d2), lambda t: _prop(t, "q"), True))
+    def sib(x, value):
+        return {**copy.deepcopy(x), "default": value} if isinstance(x, dict) else x
+
+    # the same shape twice in one document (and a third time after it), each with its own default
+    C.append(("typed.siblings-same-shape", lambda x, d2: _d2({"type": "object", "title": "Ctx", "properties": {"p": x, "s": sib(x, "sibling default"), "t": sib(x, [1, {"t": 0}])}}, d2), lambda t: _prop(t, "p"), True))
+    C.append(("untyped.siblings-same-shape-reversed", lambda x, d2: _d2({"properties": {"s": sib(x, {"sibling": None}), "p": x}, "items": sib(x, 0.5)}, d2), lambda t: _prop(t, "p"), True))
     C.append(("property.of.property", lambda x, d2: _d2({"type": "object", "title": "Ctx", "properties": {"o": {"type": "object", "title": "Mid", "properties": {"p": x}, "default": {"p": 1}}}}, d2), lambda t: _prop(_prop(t, "o"), "p"), True))
     return C
 
@@ -259,6 +268,9 @@ def class_positions():
     P.append(("property-class", lambda s: {"type": "object", "title": "Outer", "description": "outer", "properties": {"p": {"type": "object", "title": "Doc", "description": s}}}, lambda t: _prop(t, "p")))
     P.append(("items-class", lambda s: {"type": "array", "items": {"type": "object", "title": "Doc", "description": s, "properties": {"x": {}}}}, lambda t: t.items))
     P.append(("anyOf-class", lambda s: {"anyOf": [{"type": "object", "title": "Doc", "description": s}, {"type": "null"}]}, lambda t: t.elements[0]))
+    # two object schemas that share a title and differ in nothing but their descriptions: each keeps its own
+    twin = lambda d: {"type": "object", "title": "Doc", "description": d, "properties": {"x": {"type": "integer"}}}
+    P.append(("twins-differing-only-in-description", lambda s: {"type": "object", "title": "Outer", "properties": {"p": twin(s), "q": twin(s + " (other)"), "r": {"type": "array", "items": twin(s + " (third)")}}}, lambda t: _prop(t, "p")))
     P.append(("class+composition", lambda s: {"type": "object", "title": "Doc", "description": s, "anyOf": [{"required": ["a"]}, {"required": ["b"]}]}, lambda t: t.elements[0]))
     return P
 
@@ -280,6 +292,35 @@ def check_description_case(st, pname, make, find, s, rank):
         return
     if getattr(cls, "description", None) != s or type(getattr(cls, "description", None)) is not str:
         st.violation("description-lost:parse", "%s: description %r parsed as %r" % (pname, s, getattr(cls, "description", None)), case, rank)
+    if pname.startswith("twins"):
+        want = sorted([s, s + " (other)", s + " (third)"])
+        try:
+            got = sorted([_prop(tree, "p").description, _prop(tree, "q").description, _prop(tree, "r").items.description])
+            if got != want:
+                st.violation("description-lost:parse:twin", "%s: descriptions %r parsed as %r" % (pname, want, got), case, rank)
+            doc = json.loads(json.dumps(serialize_json(tree)))
+            found = []
+
+            def walk(node):
+                if isinstance(node, dict):
+                    if node.get("type") == "object" and str(node.get("title", "")).startswith("Doc"):
+                        found.append(node.get("description"))
+                    for v in node.values():
+                        walk(v)
+                elif isinstance(node, list):
+                    for v in node:
+                        walk(v)
+
+            walk(doc)
+            if sorted(map(str, found)) != want:
+                st.violation("description-lost:json:twin", "%s: descriptions %r serialized as %r" % (pname, want, found), {**case, "document": doc}, rank)
+            ns2 = {}
+            exec(compile(serialize_python(tree), "<generated>", "exec"), ns2)
+            docs_ = sorted(str(v.__doc__) for k, v in ns2.items() if isinstance(v, ObjectMeta) and k.startswith("Doc"))
+            if docs_ != want:
+                st.violation("docstring-differs:twin", "%s: descriptions %r, generated docstrings %r" % (pname, want, docs_), case, rank)
+        except Exception as exc:
+            st.violation("twin-raised:%s" % type(exc).__name__, "%s description %r: %r" % (pname, s, exc), case, rank)
     try:
         doc = serialize_json(tree)
 
